@@ -272,6 +272,20 @@ def run_cases(ctx, cases, n):
     traces = [t for o in outs for t in o['traces']]
     if len(traces) != len(cases):
         raise MachineryError('driver returned %d traces for %d cases' % (len(traces), len(cases)))
+    # a watchdog timeout may be the machine's load rather than the code: such cases are repeated alone with a
+    # generous limit; only a case that still does not finish is recorded as not terminating
+    late = [t['id'] for t in traces if any(e['r']['k'] == 'timeout' for e in t['ev'])]
+    if late:
+        byid = {c['id']: c for c in cases}
+        again = {}
+        for i in late[:3]:
+            o = ctx.run_driver(DRIVER, dict(N=n, timeout=60.0, cases=[byid[i]]))
+            again[i] = o['traces'][0]
+        if late[3:] and not any(e['r']['k'] == 'timeout' for t in again.values() for e in t['ev']):   # it was the load
+            o = ctx.run_driver(DRIVER, dict(N=n, timeout=60.0, cases=[byid[i] for i in late[3:]]), timeout=3600)
+            again.update({t['id']: t for t in o['traces']})
+        traces = [again.get(t['id'], t) for t in traces]
+        ctx.cov['cases_repeated_after_watchdog'] = ctx.cov.get('cases_repeated_after_watchdog', 0) + len(again)
     return traces
 
 
@@ -441,7 +455,7 @@ def run(ctx):
     t1 = time.time()
     r = f_laws.result()
     require_marks(r, ('Pick',))
-    if r.distinct < len(exprs):
+    if r.distinct < len(exprs) * 0.9:      # (the quick laws run uses a shorter N, its set of defined expressions differs slightly)
         raise MachineryError('laws run visited %d states for %d expressions' % (r.distinct, len(exprs)))
     r = f_strm.result()
     require_marks(r, ('Pick', 'New', 'NextVal', 'TakeN', 'AllOf', 'Reset'))
